@@ -101,8 +101,18 @@ pub fn execute(p: &EProg, prefix: &[u8], step_cap: u64) -> Execution {
         let mut after_end_calls = 0;
         loop {
             let budget = if ended.is_some() { 1 } else { BUDGET_ALTS[choose(PointKind::Budget, BUDGET_ALTS.len(), &mut choices, &mut kinds)] };
+            let executed_before = abra_core::verif::instr_count();
             let st = rt.run_n_steps(budget);
+            let executed = abra_core::verif::instr_count() - executed_before;
             total += st.steps_consumed as u64;
+            // step accounting against the independent instruction counter (hook): a budget of k executes
+            // at most k instructions, and steps_consumed is the number of instructions this call executed
+            if executed > budget as u64 {
+                problems.push(format!("call #{}: budget {budget} but {executed} instructions were executed", calls.len() + 1));
+            }
+            if executed != st.steps_consumed as u64 {
+                problems.push(format!("call #{}: {executed} instructions were executed but steps_consumed reports {}", calls.len() + 1, st.steps_consumed));
+            }
             let name = status_name(&st.kind);
             calls.push(CallRec { budget, consumed: st.steps_consumed, status: name.clone() });
             if st.steps_consumed > budget {
